@@ -14,14 +14,19 @@
                           handler there, nothing has been touched); then clone hooks, purge, Restart(instances[0]),
                           restore on error (every failing start / validation also restores the registry it found
                           on entry).  [do_sigusr1_gen true] is the order "purge, then load" (a seeded defect)
-     casket.go            Instance.Restart recovers a panic of a plugin's setup and returns (nil, nil): the
-                          deferred clean-up of startWithListenerFds sees err == nil, so the half-made instance
-                          stays in [instances], the hooks registered so far stay, and the SIGUSR1 handler (err ==
-                          nil) does not restore the registry it purged ([OPanic], [do_reload_panic])
-     proxy/upstream.go    NewStaticUpstreams starts the health-check worker of an upstream while the directive
-                          is parsed; only the OnShutdown callback of the instance stops it, and a discarded
-                          instance never runs its callbacks: the worker of a rejected configuration goes on
-                          probing the backend ([EProxy], [g_probers])
+     casket.go            Instance.Restart turns a panic of a plugin's setup into an error (the restart fails
+                          like any other: the old instance and an error are returned); the deferred clean-up of
+                          startWithListenerFds is keyed on "did not reach the end", so it also runs for the
+                          panic: the half-made instance is spliced out, the hooks registered so far are taken
+                          out, and the SIGUSR1 handler (err != nil) restores the registry it purged ([OPanic],
+                          [with_panic]: a panic is a failing directive executed after all the others)
+     proxy/setup.go       the health-check worker of an upstream is started by an OnStartup callback of the
+     proxy/upstream.go    instance (nothing runs while the directive is parsed: a validation, or a configuration
+                          rejected by a directive or by a failing startup callback of `log` - which comes before
+                          `proxy` in the directive order - starts nothing) and stopped by its OnShutdown callback;
+                          a discarded instance never runs its shutdown callbacks, so when a Listen fails AFTER
+                          the startup callbacks ran, the workers of the rejected configuration go on probing
+                          ([EProxy], [g_probers], [add_probers])
      plugins.go           RegisterEventHook / cloneEventHooks / purgeEventHooks / restoreEventHooks
      onevent/on.go        `on`: registers its hooks in the global registry while the directive is set up
      basicauth/basicauth.go GetHtpasswdMatcher: package-level cache keyed by file name, guarded by a
@@ -61,7 +66,7 @@ Inductive effect :=
 | EOn (n : nat)                         (* on: n hooks registered in the global registry *)
 | ELog (f size : N) (ok : bool)         (* log: startup callback; ok = the file can be opened *)
 | EAuth (f u : N)                       (* basicauth u htpasswd=f *)
-| EProxy.                               (* proxy with a health check: the worker starts while the directive is parsed *)
+| EProxy.                               (* proxy with a health check: the worker runs while the instance does *)
 
 Inductive addr := AEph (n : N) | ABusy. (* 127.0.0.n:0  |  a port somebody else is listening on *)
 Definition addr_eqb (a b : addr) : bool :=
@@ -77,7 +82,7 @@ Record cfg := { c_id : N; c_parse : pfault; c_effs : list effect; c_addrs : list
    servers; like a validation it ends after the directives (parsing callbacks have no global effect here) *)
 Inductive mode := Load | Validate | Reload | Sigusr1 | Execute.
 (* OPanic sig c: reload (Instance.Restart, or SIGUSR1 when [sig]) of [c] followed by a plugin directive,
-   executed after all the others, whose setup panics *)
+   executed after all the others, whose setup panics (Restart turns the panic into an error) *)
 Inductive op := OAttempt (m : mode) (c : cfg) | OWrite (f : N) (h : htfile) | OPanic (sig : bool) (c : cfg).
 
 (* ---------------------------------------------------------------- process-global state *)
@@ -183,16 +188,19 @@ Fixpoint exec_effs (step : N) (e : env) (effs : list effect) (g : gstate) (l : l
       | (ROk, g', None) => (RErr, g', l)
       | (x, g', _) => (x, g', l)
       end
-  | EProxy :: r => exec_effs step e r (set_probers g (g_probers g ++ [step])) l
+  | EProxy :: r => exec_effs step e r g l      (* registers the callbacks that start / stop the worker *)
   end.
 
-(* the workers a configuration starts when all its directives are executed *)
+(* the workers the startup callbacks of a configuration start *)
 Fixpoint probes_of (step : N) (effs : list effect) : list N :=
   match effs with
   | [] => []
   | EProxy :: r => step :: probes_of step r
   | _ :: r => probes_of step r
   end.
+
+Definition add_probers (step : N) (effs : list effect) (g : gstate) : gstate :=
+  set_probers g (g_probers g ++ probes_of step effs).
 
 (* startup callbacks (Logger.Start): the roller of a file is created on first use and kept *)
 Definition add_roller (g : gstate) (f size : N) : gstate :=
@@ -259,9 +267,13 @@ Definition start_body (step : N) (e : env) (c : cfg) (old : list (addr * N)) (g 
         | ROk =>
             let '(r3, g3, srv) := start_servers old (c_addrs c) g2 [] in
             match r3 with
-            | ROk => (ROk, g3, Some {| i_cfg := c_id c; i_servers := srv; i_auth := l_auth l; i_log := l_log l;
-                                       i_probe := probes_of step (c_effs c) |})
-            | x => (x, set_socks g3 (g_socks g3) (g_next g2), None)  (* the identities of the closed sockets are free again *)
+            (* all startup callbacks ran, those of `proxy` last: the workers are running whatever startServers
+               (which does not look at them) does next *)
+            | ROk => (ROk, add_probers step (c_effs c) g3,
+                      Some {| i_cfg := c_id c; i_servers := srv; i_auth := l_auth l; i_log := l_log l;
+                              i_probe := probes_of step (c_effs c) |})
+            | x => (x, add_probers step (c_effs c) (set_socks g3 (g_socks g3) (g_next g2)), None)
+                   (* the identities of the closed sockets are free again; nobody stops the workers *)
             end
         | x => (x, g2, None)
         end
@@ -335,39 +347,13 @@ Definition do_sigusr1_gen (purge_first : bool) (step : N) (e : env) (c : cfg) (g
 Definition do_sigusr1 := do_sigusr1_gen false.
 
 (* a panic in the setup of a plugin directive that is executed after all the others, during a reload:
-   Restart recovers it and returns (nil, nil).  Nothing of the deferred clean-up happens (it keys on
-   err != nil): the half-made instance stays in the list, the hooks registered so far stay; after SIGUSR1
-   the purged registry is not restored.  When an earlier directive fails the panic is not reached. *)
-Definition zombie (step : N) (c : cfg) : inst :=
-  {| i_cfg := c_id c; i_servers := []; i_auth := None; i_log := None; i_probe := probes_of step (c_effs c) |}.
-
-Definition do_reload_panic (step : N) (e : env) (c : cfg) (g : gstate) : outcome * gstate :=
-  match g_insts g with
-  | [] => (RErr, g)
-  | _ :: _ =>
-      if parse_ok c then
-        match exec_effs step e (c_effs c) g l0 with
-        | (ROk, g1, _) => (RErr, set_insts g1 (g_insts g1 ++ [zombie step c]))
-        | _ => do_reload step e c g
-        end
-      else do_reload step e c g
-  end.
-
-Definition do_sigusr1_panic (step : N) (e : env) (c : cfg) (g : gstate) : outcome * gstate :=
-  match g_insts g with
-  | [] => (RErr, g)
-  | _ :: _ =>
-      if loader_fails c then (RErr, g)
-      else if parse_ok c then
-        match exec_effs step e (c_effs c) (set_hooks g []) l0 with
-        | (ROk, g1, _) => (RErr, set_insts g1 (g_insts g1 ++ [zombie step c]))
-        | _ => do_sigusr1 step e c g
-        end
-      else do_sigusr1 step e c g
-  end.
+   Restart turns it into an error and every clean-up runs as for an error, so it is a reload of the
+   configuration followed by a directive that fails.  When an earlier directive fails the panic is not reached. *)
+Definition with_panic (c : cfg) : cfg :=
+  {| c_id := c_id c; c_parse := c_parse c; c_effs := c_effs c ++ [EBad]; c_addrs := c_addrs c |}.
 
 Definition attempt_panic (sig : bool) (step : N) (e : env) (c : cfg) (g : gstate) : outcome * gstate :=
-  if sig then do_sigusr1_panic step e c g else do_reload_panic step e c g.
+  if sig then do_sigusr1 step e (with_panic c) g else do_reload step e (with_panic c) g.
 
 Definition attempt (m : mode) (step : N) (e : env) (c : cfg) (g : gstate) : outcome * gstate :=
   match m with
@@ -617,8 +603,9 @@ Definition same_but_cache (g g' : gstate) : Prop :=
   g_insts g' = g_insts g /\ g_hooks g' = g_hooks g /\ g_htlock g' = g_htlock g /\
   g_rollers g' = g_rollers g /\ g_socks g' = g_socks g /\ g_next g' = g_next g /\ g_probers g' = g_probers g.
 
-(* two states that differ at most in the two registries a failed attempt still writes to (the roller map,
-   F-C08-3, and the list of health-check workers, F-C08-5) and in what the transparent cache holds *)
+(* two states that differ at most in the two registries a failed attempt whose startup callbacks ran still
+   writes to (the roller map, F-C08-3, and the list of health-check workers, F-C08-5f) and in what the
+   transparent cache holds *)
 Definition same_but_leaks (g g' : gstate) : Prop :=
   g_insts g' = g_insts g /\ g_hooks g' = g_hooks g /\ g_htlock g' = g_htlock g /\
   g_socks g' = g_socks g /\ g_next g' = g_next g.
@@ -630,11 +617,15 @@ Definition lookup_now (e : env) (f u : N) : outcome * option N :=
   else if h_bad h then (RErr, None)
   else match assoc u (h_users h) with Some pw => (ROk, Some pw) | None => (RErr, None) end.
 
-(* the faithful model leaves something behind that matters exactly through the rollers of startup callbacks
-   that ran and the health-check workers of the proxy directives that were set up (the htpasswd cache may
-   change, but it is transparent: it is consulted only for the version of the file that is on disk now) *)
+(* the faithful model leaves something behind that matters exactly through what startup callbacks that ran
+   did: the rollers of `log`, and the health-check workers of `proxy` when a listener then fails to bind (the
+   htpasswd cache may change, but it is transparent: it is consulted only for the version of the file that is on
+   disk now) *)
 Definition harmless0 (m : mode) (c : cfg) : bool :=
-  no_proxy (c_effs c) && match m with Validate | Execute => true | _ => no_log (c_effs c) end.
+  match m with
+  | Validate | Execute => true
+  | _ => no_log (c_effs c) && (no_proxy (c_effs c) || negb (existsb is_busy (c_addrs c)))
+  end.
 
 (* only what an attempt reaches matters: nothing of a configuration that does not parse; of one with a
    bad directive the directives before it, without the startup callbacks they merely schedule *)
@@ -661,11 +652,13 @@ Fixpoint attempts_failed (h : list op) (rs : list outcome) : Prop :=
   | _, _ => False
   end.
 
-(* a contained panic is never harmless (F-C08-6) *)
+(* a panic contained by Restart is a failed reload like any other (F-C08-6 fixed) *)
 Definition harmless_op (o : op) : bool :=
-  match o with OWrite _ _ => true | OAttempt m c => harmless m c | OPanic _ _ => false end.
-Definition returns_op (o : op) : bool :=
-  match o with OPanic _ _ => false | _ => true end.
+  match o with
+  | OWrite _ _ => true
+  | OAttempt m c => harmless m c
+  | OPanic sig c => harmless (if sig then Sigusr1 else Reload) (with_panic c)
+  end.
 
 Fixpoint writes (h : list op) (e : env) : env :=
   match h with
